@@ -8,7 +8,7 @@ trap 'rm -rf "$T"' EXIT
 cp -r /repo/tracklib "$T/tracklib"
 case "$P" in
   -R:*) git -C /repo show "${P#-R:}" -- tracklib | (cd "$T" && patch -s -R -p1) ;;
-  *) (cd "$T" && patch -s -p1 < "$P") ;;
+  *) P=$(readlink -f "$P"); (cd "$T" && patch -s -p1 < "$P") ;;
 esac
 mkdir -p "$T/ev"
 rc=0
